@@ -448,6 +448,7 @@ _ADDED6 = {
     "C07": "Contacts whose key is not a point of the curve.",
     "C08": "Group-context layer with an undecodable entry inside a delivered batch; the receiving device may be a second device of the sender's own account (multi-member group or account group).",
     "C10": "After restart the subject store must also open its own envelopes handed out before the stop (read-back path).",
+    "C12": "Descriptors are derived from every accepted way of holding a multi-member group in each case, including invitations that spell out the optional sign_pub / link_key fields.",
     "C13": "The whole (since, until, reverse) cube also over merged logs of two writers with concurrent entries, on two replicas.",
     "C14": "Service layer: the stand-alone push service created on the account's root datastore (its default secret store next to the application's), pushes of one sender opened through the service, through the application's store or arriving through the log with generated distances between counters (reply fields and AlreadyReceived flag checked).",
     "C16": "The controlled scheduler models sync.RWMutex writer preference (readers arriving after a waiting writer wait behind it); the peer cache scenarios add readers (GetPeersForTopics / GetPeers) next to updater and waiters.",
